@@ -26,11 +26,13 @@ theorem loanSpec_ledger {s s' : St} {amount : Nat} (L : LoanSpec s s' amount) :
   exact ⟨s.pend + fee s.fees.prot amount - s'.pend, ⟨by omega, by omega, L.allTime, L.burned, L.assetSupply⟩⟩
 
 /-- every successful top-level operation has a ledger footprint; only loans charge fees (exactly
-    `⌊share·loan⌋`), only collections (direct, or re-entrant inside a loan) pay the collector -/
+    `⌊share·loan⌋`), only collections (direct, or re-entrant inside a loan) pay the collector.
+    `op.core` is the message itself, without the stray coins that may be attached to it (`Op.attach`):
+    attached coins charge nothing and move nothing on the ledgers. -/
 theorem step_ledger {s s' : St} (op : Op) (hI : Inv s) (h : step s op = some s') :
     ∃ pf bf c, LedgerStep s s' pf bf c ∧
-      (pf ≠ 0 ∨ bf ≠ 0 → ∃ amount, (∃ cb, op = .loan amount cb) ∨ (∃ i p, op = .routerLoan i amount p)) := by
-  cases op with
+      (pf ≠ 0 ∨ bf ≠ 0 → ∃ amount, (∃ cb, op.core = .loan amount cb) ∨ (∃ i p, op.core = .routerLoan i amount p)) := by
+  induction op generalizing s s' with
   | deposit who amount sent =>
     simp only [step] at h
     split at h
@@ -96,6 +98,13 @@ theorem step_ledger {s s' : St} (op : Op) (hI : Inv s) (h : step s op = some s')
   | nextLoanBy who amount payload => exact absurd h (by simp [step])
   | completeLoanBy who initiator amount => exact absurd h (by simp [step])
   | foreign k who a b => exact absurd h (by simp [step])
+  | attach who sel n op ih =>
+    obtain ⟨dst, s1, _, _, ha, hs⟩ := attach_parts h
+    have A := arrive_spec hI ha
+    obtain ⟨pf, bf, c, L, hc⟩ := ih A.inv hs
+    have h1 := L.pend; have h2 := L.sent; have h3 := L.allTime; have h4 := L.burned; have h5 := L.supply
+    have := A.pend; have := A.sent; have := A.allTime; have := A.burned; have := A.assetSupply
+    exact ⟨pf, bf, c, ⟨by omega, by omega, by omega, by omega, by omega⟩, hc⟩
 
 /-- the ledger identities as a state invariant -/
 structure LedgerInv (K : Nat) (s : St) : Prop where
